@@ -14,6 +14,7 @@ import (
 	"runtime/pprof"
 	"strings"
 	"sync"
+	"time"
 
 	"sigs.k8s.io/kustomize/api/ifc"
 	"sigs.k8s.io/kustomize/api/krusty"
@@ -124,10 +125,11 @@ func hasCanary(s string) bool {
 // ---------- materialised worlds ----------
 
 type liveWorld struct {
-	w    *world
-	fs   filesys.FileSystem
-	kind string // mem | disk
-	ref  refFS
+	w       *world
+	fs      filesys.FileSystem
+	kind    string // mem | disk
+	ref     refFS
+	aborted bool // a build diverged: stop using this process for builds
 }
 
 func materialise(w *world, kind, diskBase string) (*liveWorld, error) {
@@ -361,6 +363,33 @@ type runObs struct {
 
 var c05Kustomizer = krusty.MakeKustomizer(krusty.MakeDefaultOptions())
 
+// a build that does not return within this time is reported as diverging (class CDiverge); the worker
+// process then stops (the runaway goroutine cannot be cancelled, it ends with the process).
+const c05RunTimeout = 20 * time.Second
+
+func runWithTimeout(fs filesys.FileSystem, target string) runObs {
+	done := make(chan runObs, 1)
+	go func() {
+		var o runObs
+		o.cls, o.msg = protect(func() error {
+			m, err := c05Kustomizer.Run(fs, target)
+			if err != nil {
+				return err
+			}
+			y, err := m.AsYaml()
+			o.out = string(y)
+			return err
+		})
+		done <- o
+	}()
+	select {
+	case o := <-done:
+		return o
+	case <-time.After(c05RunTimeout):
+		return runObs{cls: ClsDiverge, msg: "krusty.Run did not return within " + c05RunTimeout.String()}
+	}
+}
+
 func (lw *liveWorld) execRun(f fieldDef, depth int, e string) runObs {
 	names := []string{"top", "mid", "base"}
 	ov := &ovFS{FileSystem: lw.fs, over: map[string]string{}}
@@ -374,16 +403,10 @@ func (lw *liveWorld) execRun(f fieldDef, depth int, e string) runObs {
 			ov.over[absOf(lw.w.abs("zw", tested, n))] = c
 		}
 	}
-	var o runObs
-	o.cls, o.msg = protect(func() error {
-		m, err := c05Kustomizer.Run(ov, absOf(lw.w.abs("zw", "top")))
-		if err != nil {
-			return err
-		}
-		y, err := m.AsYaml()
-		o.out = string(y)
-		return err
-	})
+	o := runWithTimeout(ov, absOf(lw.w.abs("zw", "top")))
+	if o.cls == ClsDiverge {
+		lw.aborted = true
+	}
 	o.reads = ov.reads
 	o.others = ov.other
 	if f.id == "openapi.path" || f.id == "crds" {
@@ -434,6 +457,9 @@ func (lw *liveWorld) runOracle(r *Run, f fieldDef, depth int, e string, o runObs
 	ex := lw.expect(f, depth, e)
 	if o.cls == ClsPanic {
 		report("no_panic", "C05/panic/"+f.id, o.msg)
+	}
+	if o.cls == ClsDiverge {
+		report("terminates", "C05/diverge/"+f.id, fmt.Sprintf("build with %s = %q at depth %d on %s: %s", f.id, e, depth, lw.kind, o.msg))
 	}
 	if o.cls == ClsOk && !ex.allowed {
 		report("build_confined", "C05/escape/"+f.id, fmt.Sprintf("build succeeded with %s = %q at depth %d on %s although the reference rejects it (%s)", f.id, e, depth, lw.kind, ex.why))
@@ -1144,6 +1170,9 @@ func runC05Builds(r *Run, tier string, part, nparts int) error {
 					}
 				}
 				for _, e := range lw.w.exprs(depth, ml) {
+					if lw.aborted {
+						return nil
+					}
 					o := lw.execRun(f, depth, e)
 					r.AddEval(fmt.Sprintf("run|%s|%s|%d|%s", f.id, lw.kind, depth, lw.placeholders(depth, e)), o.cls == ClsOk)
 					r.Count("run_field", f.id)
@@ -1155,16 +1184,12 @@ func runC05Builds(r *Run, tier string, part, nparts int) error {
 		// the kustomization file itself is a link (disk only)
 		for _, root := range []string{"klo", "kli"} {
 			ov := &ovFS{FileSystem: dlw.fs, over: map[string]string{}}
-			var out string
-			cls, msg := protect(func() error {
-				m, err := c05Kustomizer.Run(ov, absOf(dw.abs("zw", root)))
-				if err != nil {
-					return err
-				}
-				y, err := m.AsYaml()
-				out = string(y)
-				return err
-			})
+			ko := runWithTimeout(ov, absOf(dw.abs("zw", root)))
+			cls, msg, out := ko.cls, ko.msg, ko.out
+			if cls == ClsDiverge {
+				r.Violation(OracleViolation{Law: "terminates", Class: "C05/diverge/kustomization-file", Detail: msg, Replay: map[string]string{"kind": "kustfile", "root": root, "field": f.id}})
+				return nil
+			}
 			r.AddEval("kustfile|"+f.id+"|"+root, cls == ClsOk)
 			r.Count("kustfile_link", root+"="+cls)
 			desc := map[string]string{"kind": "kustfile", "root": root, "field": f.id}
